@@ -25,6 +25,10 @@ def run(ctx):
     ins = []
     for v in [1, 2, 3, N - 2, N - 1, 0, N, N + 1, (1 << 256) - 1, 1 << 255, N // 2]:
         ins.append((v.to_bytes(32, "big"), "len32/boundary"))
+    NHI, NLO = N >> 128, N & ((1 << 128) - 1)
+    for v in [(NHI << 128) | ((1 << 128) - 1), (((1 << 128) - 1) << 128) | 5, (((1 << 128) - 1) << 128) | (NLO - 1), (NHI + 1) << 128,
+              (NHI << 128) | (NLO - 1), NHI << 128, ((NHI - 1) << 128) | ((1 << 128) - 1), (1 << 128) - 1, 1 << 128]:
+        ins.append((v.to_bytes(32, "big"), "len32/half-pattern"))
     for _ in range(24 if not thorough else 300):
         ins.append((rng.randrange(1, N).to_bytes(32, "big"), "len32/random"))
     # consecutive small secrets, chosen so that every value 0x00..0xff occurs as the first byte of X and as the first byte of Y
